@@ -35,10 +35,10 @@ def r1_header_map(ctx):
             "network": "$1.0.network", "height": "$1.0.height",
             "fee_pool": "$1.0.fee_pool", "fee_multiplier": "$1.0.fee_multiplier", "dosc_speed": "$1.0.dosc_speed",
             "history_hash": "SmtMapping::root_hash($1.0.history)",
-            "coins_hash": {"CoinMapping::root_hash($1.0.coins)", "HashVal::HashVal{0: Tree::root_hash(CoinMapping::inner($1.0.coins))}"},
+            "coins_hash": {"CoinMapping::root_hash($1.0.coins)", "Tree::root_hash(CoinMapping::inner($1.0.coins))"},
             "transactions_hash": "UnsealedState::transactions_root_hash($1.0)",
             "pools_hash": "SmtMapping::root_hash($1.0.pools)",
-            "stakes_hash": "HashVal::HashVal{0: Tree::root_hash(StakeSet::pre_tip911($1.0.stakes))}",
+            "stakes_hash": "Tree::root_hash(StakeSet::pre_tip911($1.0.stakes))",
             "previous": prev_ok,
         }
         # every field of the ADT must be in the table (a new header field is automatically an obligation)
@@ -53,11 +53,11 @@ def r1_header_map(ctx):
         ctx.analysed(c)
         rr = q.ret_assignments(c)
         s = sig(rr[0][2]) if rr else "?"
-        r.check(s == "Header::hash(Option::unwrap(SmtMapping::get(^inner.history, BlockHeight::BlockHeight{0: $2})))", "previous/closure",
+        r.check(s == "Header::hash(Option::unwrap(SmtMapping::get(^inner.history, $2)))", "previous/closure",
                 "previous = hash(history[height-1])", "previous closure returns %s" % s, "%s:%s" % (c.file, c.line))
     # CoinMapping::root_hash / SmtMapping::root_hash are the tree's root
-    for nm, exp in (("melstf::state::coins::CoinMapping::root_hash", "HashVal::HashVal{0: Tree::root_hash($1.inner)}"),
-                    ("melstf::smtmapping::SmtMapping::root_hash", "HashVal::HashVal{0: Tree::root_hash($1.mapping)}")):
+    for nm, exp in (("melstf::state::coins::CoinMapping::root_hash", "Tree::root_hash($1.inner)"),
+                    ("melstf::smtmapping::SmtMapping::root_hash", "Tree::root_hash($1.mapping)")):
         b = ctx.body(nm, r)
         rr = q.ret_assignments(b)
         s = sig(rr[0][2]) if rr else "?"
@@ -197,7 +197,7 @@ def r5_tx_commitment(ctx):
                 "inserts %s → %s" % (sig(e[2][1]), sig(e[2][2])), b.where(bi))
     rets = q.ret_assignments(b)
     sigs = sorted(sig(mir.strip(x[2])) for x in rets)
-    r.check(sigs == sorted(["HashVal::HashVal{0: DenseMerkleTree::root_hash(UnsealedState::tip908_transactions($1))}", "SmtMapping::root_hash(smt)"]),
+    r.check(sigs == sorted(["DenseMerkleTree::root_hash(UnsealedState::tip908_transactions($1))", "SmtMapping::root_hash(smt)"]),
             "results", "returns the dense root / the SMT root", "returns %s" % sigs)
     # tip908: sort dominates DenseMerkleTree::new on the same vector; every element pushed
     b = ctx.prog.body("melstf::state::UnsealedState::tip908_transactions")
